@@ -149,7 +149,8 @@ theorem escChar_clean {q : Char} (hq : q = '"' ∨ q = '\'') (k : Nat) (c : Char
   have bs : clean '\\' := by constructor <;> decide
   unfold escChar
   intro x hx
-  split_ifs at hx with h1 h2 h3 h4 h5 h6 h7 h8 h9 h10 h11 h12
+  split_ifs at hx with h0 h1 h2 h3 h4 h5 h7 h8 h9 h10 h11 h12
+  · exact uchar_clean _ c x hx
   · simp only [List.mem_cons, List.not_mem_nil, or_false] at hx
     rcases hx with rfl | rfl
     · exact bs
@@ -162,7 +163,6 @@ theorem escChar_clean {q : Char} (hq : q = '"' ∨ q = '\'') (k : Nat) (c : Char
     rcases hx with rfl | rfl <;> (constructor <;> decide)
   · simp only [List.mem_cons, List.not_mem_nil, or_false] at hx
     rcases hx with rfl | rfl <;> (constructor <;> decide)
-  · exact uchar_clean _ c x hx
   · simp only [List.mem_cons, List.not_mem_nil, or_false] at hx
     subst hx; exact ⟨h3, h4⟩
   · simp only [List.mem_cons, List.not_mem_nil, or_false] at hx
